@@ -7,6 +7,7 @@ import (
 	"net"
 	"time"
 
+	"tunnox-core/internal/core/types"
 	"tunnox-core/internal/packet"
 )
 
@@ -40,4 +41,11 @@ func VerifBridge(s *SessionManager, tunnelID string) *TunnelBridge {
 // VerifAttachTarget does what the target side's TunnelOpen does on the bridge's node.
 func VerifAttachTarget(b *TunnelBridge, connID string, c net.Conn, clientID int64, mappingID, tunnelID string) {
 	b.SetTargetConnection(CreateTunnelConnection(connID, c, nil, clientID, mappingID, tunnelID))
+}
+
+// VerifHandleCrossNodeTarget runs the REAL target-side path of cross_node_session.go for a TunnelOpen that arrived on this
+// node for a tunnel waiting elsewhere: handleCrossNodeTargetConnection = lookupTunnelRouting (polling) +
+// processCrossNodeForward + forwardToSourceNode (resolve the source node's address, dial, send TargetReady).
+func VerifHandleCrossNodeTarget(s *SessionManager, tunnelID, mappingID string, conn *types.Connection, netConn net.Conn) error {
+	return s.handleCrossNodeTargetConnection(&packet.TunnelOpenRequest{TunnelID: tunnelID, MappingID: mappingID}, conn, netConn)
 }
